@@ -43,10 +43,16 @@ type advInsts struct {
 	full63   *utreexo.MapPollard
 	full0    *utreexo.MapPollard
 	fromroot *utreexo.MapPollard
+	// the same state reached through a detour: a block is applied, something
+	// is verified in the state after it, and the block is undone (twice: an
+	// adds-only block and a deletion-only block)
+	pollardU *utreexo.Pollard
+	full63U  *utreexo.MapPollard
 }
 
 var advAPIs = []string{"Verify", "Pollard.Verify", "MapPollard.Verify/63", "MapPollard.Verify/0",
-	"MapPollard.VerifyPartialProof/full", "MapPollard.VerifyPartialProof/fromroots"}
+	"MapPollard.VerifyPartialProof/full", "MapPollard.VerifyPartialProof/fromroots",
+	"Pollard.Verify@after-undo", "MapPollard.Verify/63@after-undo"}
 
 // buildAdv constructs real instances in the abstract state of the line: add n
 // leaves, then delete the dead ones with the specification's canonical proof.
@@ -97,6 +103,54 @@ func buildAdv(sy *Symb, st *Step, exp *Expect) (*advInsts, error) {
 	}
 	fr := utreexo.NewMapPollardFromRoots(sy.Hs(exp.Roots), exp.N, false)
 	a.fromroot = &fr
+	// detour instances
+	detour := func(acc utreexo.Utreexo) error {
+		if err := mk(acc); err != nil {
+			return err
+		}
+		prev := sy.Hs(exp.Roots)
+		j1, j2 := sy.H(junkTerm(1)), sy.H(junkTerm(2))
+		if err := acc.Modify([]utreexo.Leaf{{Hash: j1}, {Hash: j2}}, nil, utreexo.Proof{}); err != nil {
+			return err
+		}
+		if pr, err := acc.Prove([]Hash{j1}); err == nil {
+			acc.Verify([]Hash{j1}, pr, false)
+		}
+		if err := acc.Undo(2, utreexo.Proof{}, nil, prev); err != nil {
+			return err
+		}
+		if len(st.Live) > 0 {
+			h := sy.H(leafTerm(st.Live[0]))
+			pr, err := acc.Prove([]Hash{h})
+			if err != nil {
+				return err
+			}
+			if err := acc.Modify(nil, []Hash{h}, pr); err != nil {
+				return err
+			}
+			if len(st.Live) > 1 {
+				h2 := sy.H(leafTerm(st.Live[len(st.Live)-1]))
+				if pr2, err := acc.Prove([]Hash{h2}); err == nil {
+					acc.Verify([]Hash{h2}, pr2, false)
+				}
+			}
+			if err := acc.Undo(0, pr, []Hash{h}, prev); err != nil {
+				return err
+			}
+		}
+		if got := sy.Ts(acc.GetRoots()); !eqStrs(got, exp.Roots) {
+			return fmt.Errorf("detour gives roots %v, want %v", got, exp.Roots)
+		}
+		return nil
+	}
+	pu := utreexo.NewAccumulator()
+	if err := detour(&pu); err == nil {
+		a.pollardU = &pu
+	}
+	mu := newMap(true, 63)
+	if err := detour(mu); err == nil {
+		a.full63U = mu
+	}
 	return a, nil
 }
 
@@ -117,6 +171,16 @@ func (a *advInsts) call(api int, hs []Hash, tg []uint64, pf []Hash) (accepted bo
 		err = a.full63.VerifyPartialProof(tg, hs, pf, false)
 	case 5:
 		err = a.fromroot.VerifyPartialProof(tg, hs, pf, false)
+	case 6:
+		if a.pollardU == nil {
+			return false
+		}
+		err = a.pollardU.Verify(hs, proof, false)
+	case 7:
+		if a.full63U == nil {
+			return false
+		}
+		err = a.full63U.Verify(hs, proof, false)
 	}
 	return err == nil
 }
@@ -298,6 +362,11 @@ func (r *Runner) advSoundness(l *Line) lineResult {
 				res.skipped = "cannot build state: " + err.Error()
 				mu.Unlock()
 				return
+			}
+			if wi == 0 && (a.pollardU == nil || a.full63U == nil) {
+				mu.Lock()
+				res.extra["detour_failed"]++
+				mu.Unlock()
 			}
 			sl := wd.slots[wi]
 			run := func(cs []claim) {
